@@ -25,13 +25,15 @@ type StructV struct{ F []Value }
 type ArrayV struct {
 	E   []Value
 	Mut bool // slice backing store: updated in place, copied on whole-value load
+	born int // object counter at creation (Mut arrays only)
 }
 
 type Obj struct {
-	V    Value
-	ID   int
-	Name string
-	Typ  types.Type // element type held
+	V     Value
+	ID    int
+	Name  string
+	Typ   types.Type // element type held
+	owner *Path
 }
 
 type PtrV struct {
@@ -89,6 +91,7 @@ func (s StrV) Concrete() (string, bool) {
 
 type MapEntry struct {
 	K, V Value
+	Cond *Term // when non-nil: the entry exists iff this condition holds (result of merging two branches)
 }
 type MapV struct {
 	E  []MapEntry
@@ -105,6 +108,7 @@ type FuncV struct {
 	Env     []Value
 	Builtin string // engine builtin closure
 	Data    []Value
+	Nil     *Term // when non-nil: the function value is nil iff this condition holds
 }
 
 type TupleV []Value
@@ -294,8 +298,14 @@ func (p PtrV) Load() Value {
 func (p PtrV) Store(v Value) {
 	if a, ok := p.O.V.(*ArrayV); ok && a.Mut && len(p.Path) >= 1 {
 		i := p.Path[0]
+		if ow := p.O.owner; ow != nil && len(ow.journals) > 0 {
+			ow.journalElem(a, i)
+		}
 		a.E[i] = setPath(a.E[i], p.Path[1:], v)
 		return
+	}
+	if ow := p.O.owner; ow != nil && len(ow.journals) > 0 {
+		ow.journalObj(p.O)
 	}
 	p.O.V = setPath(p.O.V, p.Path, v)
 }
@@ -321,11 +331,12 @@ func ptrEq(a, b PtrV) bool {
 // ---- deep clone of a heap (used to snapshot the post-init state) ----
 
 type cloner struct {
-	objs map[*Obj]*Obj
-	maps map[*MapV]*MapV
+	objs  map[*Obj]*Obj
+	maps  map[*MapV]*MapV
+	owner *Path
 }
 
-func newCloner() *cloner { return &cloner{map[*Obj]*Obj{}, map[*MapV]*MapV{}} }
+func newCloner(owner *Path) *cloner { return &cloner{map[*Obj]*Obj{}, map[*MapV]*MapV{}, owner} }
 
 func (c *cloner) obj(o *Obj) *Obj {
 	if o == nil {
@@ -334,7 +345,7 @@ func (c *cloner) obj(o *Obj) *Obj {
 	if n, ok := c.objs[o]; ok {
 		return n
 	}
-	n := &Obj{ID: o.ID, Name: o.Name, Typ: o.Typ}
+	n := &Obj{ID: o.ID, Name: o.Name, Typ: o.Typ, owner: c.owner}
 	c.objs[o] = n
 	n.V = c.val(o.V)
 	return n
@@ -395,7 +406,7 @@ func (c *cloner) val(v Value) Value {
 		n := &MapV{ID: a.ID, E: make([]MapEntry, len(a.E))}
 		c.maps[a] = n
 		for i, e := range a.E {
-			n.E[i] = MapEntry{c.val(e.K), c.val(e.V)}
+			n.E[i] = MapEntry{K: c.val(e.K), V: c.val(e.V), Cond: e.Cond}
 		}
 		return n
 	case IfaceV:
@@ -404,7 +415,7 @@ func (c *cloner) val(v Value) Value {
 		if a == nil {
 			return a
 		}
-		n := &FuncV{Fn: a.Fn, Builtin: a.Builtin}
+		n := &FuncV{Fn: a.Fn, Builtin: a.Builtin, Nil: a.Nil}
 		for _, x := range a.Env {
 			n.Env = append(n.Env, c.val(x))
 		}
